@@ -313,9 +313,33 @@ func genSeqMap(prop string, seed uint64, tier string, kinds []string) *SeqScenar
 	bulkMax := 400
 	if tier == "thorough" {
 		maxOps = 300
-		bulkMax = 6000
-		if g.r.Bool(0.03) {
-			bulkMax = 60000 // tens of thousands of keys: every grow threshold up to 2^15 buckets, more counter stripes
+		bulkMax = 2000
+		if g.r.Bool(0.05) {
+			// tens of thousands of keys: every grow threshold up to 2^15 buckets,
+			// more counter stripes; few calls so that the run stays affordable
+			bulkMax = 60000
+			maxOps = 25
+		}
+	}
+	// chains are walked linearly: under forced collisions keep the key count
+	// where a run costs millions of steps, not billions
+	capBulk := func(mode string, n int) int {
+		switch mode {
+		case "collide":
+			if n > 300 {
+				n = 300
+			}
+		case "split":
+			if n > 800 {
+				n = 800
+			}
+		}
+		return n
+	}
+	bulkMax = capBulk(sc.A.HashMode, bulkMax)
+	if sc.A.Hasher == "const" || sc.A.Hasher == "mod2" || sc.A.Hasher == "lowbits" {
+		if bulkMax > 300 {
+			bulkMax = 300
 		}
 	}
 	n := 5 + g.r.Intn(maxOps)
@@ -459,6 +483,19 @@ func genSibling(seed uint64, tier string) *SeqScenario {
 	sc := genSeqMap("C11", seed, tier, kinds)
 	sc.Mode = "sibling"
 	b := g.mapInst(sc.A.Kind, simrt.Mix64(seed^0xB))
+	// the sibling may collide where A does not: keep bulk sizes affordable for both
+	limit := 1 << 30
+	switch {
+	case b.HashMode == "collide" || b.Hasher == "const" || b.Hasher == "mod2" || b.Hasher == "lowbits":
+		limit = 300
+	case b.HashMode == "split":
+		limit = 800
+	}
+	for i := range sc.Ops {
+		if (sc.Ops[i].K == XBulkInsert || sc.Ops[i].K == XBulkDelete) && sc.Ops[i].N > limit {
+			sc.Ops[i].N = limit
+		}
+	}
 	// the hasher is part of the sibling's configuration as well, but the key
 	// type stays the same
 	sc.B = &b
